@@ -2702,7 +2702,8 @@ def groupby_reduce(
     if axis is None:
         axis_ = tuple(array.ndim + np.arange(-by_.ndim, 0))
     else:
-        axis_ = normalize_axis_tuple(axis, array.ndim)
+        # the order in which the reduced axes are listed is irrelevant; everything below assumes ascending
+        axis_ = tuple(sorted(normalize_axis_tuple(axis, array.ndim)))
     nax = len(axis_)
 
     has_dask = is_duck_dask_array(array) or is_duck_dask_array(by_)
@@ -2751,6 +2752,9 @@ def groupby_reduce(
 
     assert nax <= by_.ndim
     if nax < by_.ndim:
+        if by_.shape != array.shape[-by_.ndim :]:
+            # labels with size-1 axes: the per-slice offsetting below needs the broadcast labels
+            by_ = np.broadcast_to(by_, array.shape[-by_.ndim :])
         by_ = _move_reduce_dims_to_end(by_, tuple(-array.ndim + ax + by_.ndim for ax in axis_))
         array = _move_reduce_dims_to_end(array, axis_)
         axis_ = tuple(array.ndim + np.arange(-nax, 0))
